@@ -118,6 +118,10 @@ structure SectionView where
   plugins : Option (List ItemView)          -- cast.ToSlice(Get("serverN.plugins")), none = nil
   iface   : Option String                   -- cast.ToString(Get("serverN.interface")), none = key absent
   listen  : Option (List String)            -- the listen value as a string slice, none = key absent
+  /-- what `cast.ToStringSliceE` makes of `"%" + interface` — the deprecated alias goes through the
+  same conversion as a scalar `listen`, which splits a string at white space (`interface: ' '` is
+  the wildcard `%`, `interface: 'a b'` is the two addresses `%a` and `b`); `[]` when there is no alias -/
+  alias   : List String := []
   oracles : List AddrOracle                 -- stdlib answers for every listen string
 deriving Repr, Inhabited
 
@@ -144,7 +148,7 @@ def listenLoop (v6 : Bool) (ifs : List Iface) (os : List AddrOracle) : List Stri
 def parseListen (v6 : Bool) (ifs : List Iface) (sec : SectionView) : Option (List UDPAddr) :=
   match sec.iface, sec.listen with
   | some _, some _ => none                               -- both `interface` and `listen`
-  | some i, none => listenLoop v6 ifs sec.oracles ["%" ++ i]
+  | some _, none => listenLoop v6 ifs sec.oracles sec.alias
   | none, none => defaultListen v6 ifs
   | none, some addrs => listenLoop v6 ifs sec.oracles addrs
 
